@@ -99,6 +99,7 @@ def worker(job):
                           max_paths=opts.get('max_paths') or k.max_paths,
                           time_limit=opts.get('time_limit') or k.time_limit)
         eng.prescribe = set(k.prescribe)
+        eng.cross_check = 2 if not opts.get('forced') else 0
         eng.want_witnesses = k.witnesses if k.native else 0
         eng.witnesses = []
         if k.setup:
@@ -131,6 +132,7 @@ def worker(job):
             st = eng.explore(lambda: k.fn(shape), on_path=on_path)
         _stop_coverage(tool)
         out['frontier'] = eng.frontier
+        out['cross'] = _cross_solve(eng.cross_dumps)
         out['stats'] = _jsonable(st.as_dict())
         out['truncated'] = eng.truncated
         out['functions'] = sorted(found)
@@ -143,6 +145,37 @@ def worker(job):
         out['error'] = ''.join(traceback.format_exception(type(e), e, e.__traceback__))[-4000:]
     out['wall_s'] = round(time.time() - t0, 3)
     return out
+
+
+def _cross_solve(dumps):
+    '''Re-decide dumped obligations (all answered unsat by z3 5.1) with the system z3 4.8.12.'''
+    import shutil
+    import tempfile
+    res = {'checked': 0, 'agree': 0, 'disagree': 0, 'inconclusive': 0}
+    z3bin = shutil.which('z3')
+    if not z3bin or not dumps:
+        return res
+    for d in dumps:
+        with tempfile.NamedTemporaryFile('w', suffix='.smt2', delete=False) as f:
+            f.write(d)
+            path = f.name
+        try:
+            p = subprocess.run([z3bin, '-T:20', path], capture_output=True, text=True, timeout=40)
+            out = p.stdout.strip().splitlines()
+            res['checked'] += 1
+            if any('(error' in l for l in out) or not out:
+                res['inconclusive'] += 1
+            elif out[-1] == 'unsat':
+                res['agree'] += 1
+            elif out[-1] == 'sat':
+                res['disagree'] += 1
+            else:
+                res['inconclusive'] += 1
+        except Exception:   # noqa
+            res['inconclusive'] += 1
+        finally:
+            os.unlink(path)
+    return res
 
 
 def _jsonable(x):
@@ -344,6 +377,7 @@ def main(prop, argv=None):
     per_kernel = {}
     violations = []
     witnesses = []
+    cross = {}
     for r in results:
         pk = per_kernel.setdefault(r['kernel'], {
             'shapes': 0, 'paths': 0, 'complete': 0, 'forked_paths': 0, 'aborted': {}, 'obligations': 0,
@@ -368,6 +402,8 @@ def main(prop, argv=None):
             violations.append((r['kernel'], r['shape'], v))
         for w in r['witnesses']:
             witnesses.append((r['kernel'], r['shape'], w))
+        for key, v in (r.get('cross') or {}).items():
+            cross[key] = cross.get(key, 0) + v
 
     kmap = {k.name: k for k in kernels}
     harness_errors = []
@@ -395,6 +431,8 @@ def main(prop, argv=None):
                         f'inputs={json.dumps(w["inputs"])[:600]} sym_obs={json.dumps(w["obs"])[:400]} '
                         f'native_obs={json.dumps(nr["obs"])[:400]}')
 
+    if cross.get('disagree'):
+        harness_errors.append(f"second solver disagrees on {cross['disagree']} discharged obligation(s)")
     # -- vacuity: every kernel must have complete paths
     for kn, pk in per_kernel.items():
         if (pk['complete'] == 0 and not any(v[0] == kn for v in violations) and not errors
@@ -542,6 +580,8 @@ def main(prop, argv=None):
                 'functions_encoded': [f'{f}:{q}' for f, q in sorted(functions)],
                 'source_sha256_16': {f: file_sha(os.path.join(REPO, f)) for f in files},
                 'twin_validation': {'witnesses_replayed_natively': twin_checked, 'divergent': twin_bad},
+                'second_solver': dict(cross, solver='z3 4.8.12 (/usr/bin/z3) on SMT-LIB2 dumps of sampled discharged '
+                                                    'obligations (2 per shape)'),
                 'known_findings_hit': sorted(seen_known),
                 'concrete_fallbacks': fallback_notes,
                 'harness_errors': harness_errors[:5],
